@@ -411,6 +411,15 @@ static void tuple_case(Rng &r) {
 		if(&trc.get<0>() != &ri || &trc.get<1>() != &re) fail17("ref-identity", "copy of a reference tuple");
 		bool ra = frg::apply([&](int &a, Elem &b, const long &c_) { return &a == &ri && &b == &re && &c_ == &rl; }, (const frg::tuple<int &, Elem &, const long &> &)tr);
 		if(!ra) fail17("ref-identity", "apply on a reference tuple");
+		// homogeneous tuple: order cannot hide behind distinct types
+		frg::tuple<int, int, int, int> hom(x, y, x + y + 1, -x - 1);
+		if(hom.get<0>() != x || hom.get<1>() != y || hom.get<2>() != x + y + 1 || hom.get<3>() != -x - 1) fail17("get", "homogeneous tuple order");
+		int ord = frg::apply([&](int a, int b, int c_, int d) { return (a == x && b == y && c_ == x + y + 1 && d == -x - 1) ? 1 : 0; }, frg::tuple<int, int, int, int>(hom));
+		if(ord != 1) fail17("apply", "apply(&&) argument order on a homogeneous tuple");
+		ord = frg::apply([&](int a, int b, int c_, int d) { return (a == x && b == y && c_ == x + y + 1 && d == -x - 1) ? 1 : 0; }, (const frg::tuple<int, int, int, int> &)hom);
+		if(ord != 1) fail17("apply", "apply(const&) argument order on a homogeneous tuple");
+		auto hc = frg::tuple_cat(frg::make_tuple(x, y), frg::make_tuple(x + 2, y + 2), frg::make_tuple(7));
+		if(hc.get<0>() != x || hc.get<1>() != y || hc.get<2>() != x + 2 || hc.get<3>() != y + 2 || hc.get<4>() != 7) fail17("tuple_cat", "tuple_cat order on homogeneous tuples");
 		// default construction
 		frg::tuple<int, Elem> dflt; if(dflt.get<1>().get() != 0) fail17("default", "default-constructed element");
 		// eternal<Pod>: accessors return the held object (never destroyed by design; trivially destructible payload)
